@@ -194,10 +194,12 @@ enum PolicyStateKind<C> {
     },
     // mpc computation is executing in a separate tokio task
     Executing {
-        // use Notify because we notify in both directions, first from the `cancel` method
-        // to the tokio task to signal cancellation, and then the other direction if the
-        // cancel error has been sent to the output URL
+        // notified by the `cancel` method to signal cancellation to the tokio task
         cancel: Arc<Notify>,
+        // notified by the tokio task once the cancel error has been sent to the output URL.
+        // This needs to be a separate Notify: with a single one, the `cancel` method consumes
+        // its own notification if the task is not yet waiting on it.
+        cancelled: Arc<Notify>,
     },
 }
 
@@ -810,8 +812,10 @@ where
                 let tmp_dir = self.tmp_dir_path.clone();
                 let cmd_tx = self.cmd_tx.clone();
                 let cancel = Arc::new(Notify::new());
+                let cancelled = Arc::new(Notify::new());
                 self.state_kind = PolicyStateKind::Executing {
                     cancel: Arc::clone(&cancel),
+                    cancelled: Arc::clone(&cancelled),
                 };
                 let fut = async move {
                     let mpc_fut = async {
@@ -864,7 +868,7 @@ where
                             if let Err(err) = send_cancel(channel.client, policy).await {
                                 error!(%err, "unable to send cancelled error to output destination")
                             }
-                            cancel.notify_one();
+                            cancelled.notify_one();
                         }
                     )
                 };
@@ -1125,12 +1129,12 @@ where
                 channel: Channel { client, .. },
                 ..
             } => (client, policy),
-            PolicyStateKind::Executing { cancel } => {
+            PolicyStateKind::Executing { cancel, cancelled } => {
                 // send_cancel is called in spawned mpc tokio task
                 cancel.notify_one();
                 // when this is notified, the error has been sent to output
                 // destination if available
-                cancel.notified().await;
+                cancelled.notified().await;
                 let _ = ret.send(Ok(()));
                 return;
             }
